@@ -124,136 +124,9 @@ func ModuleEntries() []Entry {
 			tail := f.Opt("partition", `, partition "p"`)
 			f.TopLine("@%s = %s%s%s%s%salias %s%s", name, link, pre, vis, tls, ua, target, tail)
 		}},
+		{Name: "func-declaration", Build: func(f *Frag) { funcHeader(f, false) }},
 		{Name: "func-header", Build: func(f *Frag) {
-			def := !f.Flip("declaration")
-			link := ""
-			if def {
-				link = f.Alt("linkage", "", "private ", "internal ", "weak ", "weak_odr ", "linkonce ", "linkonce_odr ", "available_externally ", "external ")
-			} else {
-				link = f.Alt("linkage", "", "extern_weak ", "external ")
-			}
-			pre := f.Alt("preemption", "", "dso_local ", "dso_preemptable ")
-			vis := ""
-			if link != "private " && link != "internal " {
-				vis = f.Alt("visibility", "", "hidden ", "protected ", "default ")
-			}
-			if vis == "hidden " || vis == "protected " || link == "private " || link == "internal " {
-				if pre == "dso_preemptable " {
-					pre = ""
-				}
-			}
-			dll := ""
-			if vis == "" && link == "" {
-				if f.Flip("dll") {
-					if def {
-						dll = "dllexport "
-					} else {
-						dll = "dllimport "
-					}
-				}
-			}
-			cc := f.Alt("callconv", callConvs...)
-			ra := f.Alt("ret-attrs", "", "zeroext ", "signext ", "noundef ", "inreg ")
-			rt := "i32"
-			if strings.Contains(ra, "noalias") {
-				rt = "i8*"
-			}
-			var params []string
-			switch f.N("params", 5) {
-			case 1:
-				params = []string{"i32 %a"}
-			case 2:
-				params = []string{"i32 " + f.Alt("param-attrs", "signext", "zeroext", "inreg", "noundef", "returned") + " %a", "float %b"}
-				if strings.Contains(params[0], "returned") {
-					rt = "i32"
-				}
-			case 3:
-				params = []string{"i8* " + f.Alt("ptr-attrs", "nocapture", "noalias", "nonnull", "readonly", "byval(i8)", "sret(i8)", "align 8", "dereferenceable(8)", "dereferenceable_or_null(8)", "nest", "inalloca(i8)", "byref(i8)", "preallocated(i8)", "swiftself", "noalias nocapture readonly", "nofree", "immarg-skip", "elementtype-skip") + " %p"}
-				if strings.HasSuffix(strings.Fields(params[0])[1], "-skip") {
-					params = []string{"i8* %p"}
-				}
-			case 4:
-				params = []string{"i32 %a", "..."}
-			}
-			if !def {
-				for i := range params {
-					if f2 := strings.Fields(params[i]); len(f2) > 1 && strings.HasPrefix(f2[len(f2)-1], "%") && f.c.Trace != nil {
-						// declarations may omit parameter names
-						_ = f2
-					}
-				}
-			}
-			ua := f.Alt("unnamed_addr", "", " unnamed_addr", " local_unnamed_addr")
-			as := f.Opt("addrspace", " addrspace(1)")
-			fa := f.Alt("func-attrs", "", " nounwind", " noinline optnone", " alwaysinline", " readnone", " readonly willreturn", " noreturn", " \"frame-pointer\"=\"all\"", " \"k\"", " uwtable", " alignstack(16)", " allocsize(0)", " inaccessiblememonly", " cold minsize optsize", " nosync nofree norecurse", " speculatable", " ssp", " sspstrong", " sanitize_address", " mustprogress", " vscale_range(1,16)", " strictfp", " null_pointer_is_valid", " nocallback")
-			if strings.Contains(fa, "allocsize") && len(params) == 0 {
-				fa = ""
-			}
-			if strings.Contains(fa, "allocsize") && !strings.HasPrefix(params[0], "i32") {
-				fa = ""
-			}
-			if f.Flip("attr-group") {
-				id := f.AttrID()
-				f.TailLine("attributes #%d = { nounwind \"g\"=\"h\" }", id)
-				fa += fmt.Sprintf(" #%d", id)
-			}
-			sec := f.Opt("section", ` section "fsec"`)
-			part := ""
-			if def {
-				part = f.Opt("partition", ` partition "fp"`)
-			}
-			name := f.Uniq("fn")
-			comdat := ""
-			if def {
-				switch f.N("comdat", 3) {
-				case 1:
-					f.TopLine("$%s = comdat any", name)
-					comdat = " comdat"
-				case 2:
-					cn := f.Uniq("c")
-					f.TopLine("$%s = comdat largest", cn)
-					comdat = " comdat($" + cn + ")"
-				}
-			}
-			al := f.Opt("align", " align 32")
-			gc := f.Opt("gc", ` gc "statepoint-example"`)
-			extra := ""
-			if def {
-				// independent options, in grammar order, so that combinations (and, for C05, a
-				// fault in an earlier field followed by a good later field) are enumerated.
-				switch f.N("prefix", 3) {
-				case 1:
-					extra += " prefix i32 123"
-				case 2:
-					g := f.Uniq("pfx")
-					f.TopLine("@%s = global i32 7", g)
-					extra += " prefix i32* @" + g
-				}
-				switch f.N("prologue", 3) {
-				case 1:
-					extra += " prologue i8 144"
-				case 2:
-					g := f.Uniq("plg")
-					f.TopLine("@%s = global i8 9", g)
-					extra += " prologue i8* @" + g
-				}
-				if f.Flip("personality") {
-					f.Need(declPers)
-					extra += " personality i8* bitcast (i32 (...)* @__gxx_personality_v0 to i8*)"
-				}
-			}
-			md := ""
-			if f.Flip("metadata") {
-				id := f.MDID()
-				f.TailLine("!%d = !{i32 5}", id)
-				md = fmt.Sprintf(" !foo !%d", id)
-			}
-			hdr := fmt.Sprintf("%s%s%s%s%s%s%s @%s(%s)%s%s%s%s%s%s%s%s%s", link, pre, vis, dll, cc, ra, rt, name, strings.Join(params, ", "), ua, as, fa, sec, part, comdat, al, gc, extra)
-			if def {
-				f.TopLine("define %s%s {\n  ret %s undef\n}", hdr, md, rt)
-			} else {
-				f.TopLine("declare%s %s", md, hdr)
-			}
+			funcHeader(f, !f.Flip("declaration"))
 		}},
 		{Name: "types", Build: func(f *Frag) {
 			p := f.P
@@ -302,7 +175,7 @@ func ModuleEntries() []Entry {
 		}},
 		{Name: "attribute-group", Build: func(f *Frag) {
 			id := f.AttrID()
-			attrs := f.Alt("attrs", "nounwind", "nounwind readnone", `"k"="v"`, `"k"`, "alignstack=16", "align=8-skip", `"a"="b" "c"="d" nounwind`, "noinline optnone", "uwtable", "allocsize(0,1)", "vscale_range(2,4)", `"no-frame-pointer-elim"="true" "stack-protector-buffer-size"="8"`)
+			attrs := f.Alt("attrs", "nounwind", "nounwind readnone", `"k"="v"`, `"k"`, "alignstack=16", "align=8-skip", `"a"="b" "c"="d" nounwind`, "noinline optnone", "uwtable", "allocsize(0,1)", "vscale_range(2,4)", `"no-frame-pointer-elim"="true" "stack-protector-buffer-size"="8"`, `"k"="v" "k" = "v" nounwind nounwind`)
 			if strings.HasSuffix(attrs, "-skip") {
 				attrs = "nounwind"
 			}
@@ -337,4 +210,137 @@ func ModuleEntries() []Entry {
 			f.TopLine("@%s = global i8 0", f.Uniq("g"))
 		}},
 	}
+}
+
+// funcHeader emits a function definition (def) or declaration with optional header fields.
+func funcHeader(f *Frag, def bool) {
+	link := ""
+	if def {
+		link = f.Alt("linkage", "", "private ", "internal ", "weak ", "weak_odr ", "linkonce ", "linkonce_odr ", "available_externally ", "external ")
+	} else {
+		link = f.Alt("linkage", "", "extern_weak ", "external ")
+	}
+	pre := f.Alt("preemption", "", "dso_local ", "dso_preemptable ")
+	vis := ""
+	if link != "private " && link != "internal " {
+		vis = f.Alt("visibility", "", "hidden ", "protected ", "default ")
+	}
+	if vis == "hidden " || vis == "protected " || link == "private " || link == "internal " {
+		if pre == "dso_preemptable " {
+			pre = ""
+		}
+	}
+	dll := ""
+	if vis == "" && link == "" {
+		if f.Flip("dll") {
+			if def {
+				dll = "dllexport "
+			} else {
+				dll = "dllimport "
+			}
+		}
+	}
+	cc := f.Alt("callconv", callConvs...)
+	ra := f.Alt("ret-attrs", "", "zeroext ", "signext ", "noundef ", "inreg ")
+	rt := "i32"
+	if strings.Contains(ra, "noalias") {
+		rt = "i8*"
+	}
+	var params []string
+	switch f.N("params", 5) {
+	case 1:
+		params = []string{"i32 %a"}
+	case 2:
+		params = []string{"i32 " + f.Alt("param-attrs", "signext", "zeroext", "inreg", "noundef", "returned") + " %a", "float %b"}
+		if strings.Contains(params[0], "returned") {
+			rt = "i32"
+		}
+	case 3:
+		params = []string{"i8* " + f.Alt("ptr-attrs", "nocapture", "noalias", "nonnull", "readonly", "byval(i8)", "sret(i8)", "align 8", "dereferenceable(8)", "dereferenceable_or_null(8)", "nest", "inalloca(i8)", "byref(i8)", "preallocated(i8)", "swiftself", "noalias nocapture readonly", "nofree", "immarg-skip", "elementtype-skip") + " %p"}
+		if strings.HasSuffix(strings.Fields(params[0])[1], "-skip") {
+			params = []string{"i8* %p"}
+		}
+	case 4:
+		params = []string{"i32 %a", "..."}
+	}
+	if !def {
+		for i := range params {
+			if f2 := strings.Fields(params[i]); len(f2) > 1 && strings.HasPrefix(f2[len(f2)-1], "%") && f.c.Trace != nil {
+				// declarations may omit parameter names
+				_ = f2
+			}
+		}
+	}
+	ua := f.Alt("unnamed_addr", "", " unnamed_addr", " local_unnamed_addr")
+	as := f.Opt("addrspace", " addrspace(1)")
+	fa := f.Alt("func-attrs", "", " nounwind", " noinline optnone", " alwaysinline", " readnone", " readonly willreturn", " noreturn", " \"frame-pointer\"=\"all\"", " \"k\"", " uwtable", " alignstack(16)", " allocsize(0)", " inaccessiblememonly", " cold minsize optsize", " nosync nofree norecurse", " speculatable", " ssp", " sspstrong", " sanitize_address", " mustprogress", " vscale_range(1,16)", " strictfp", " null_pointer_is_valid", " nocallback")
+	if strings.Contains(fa, "allocsize") && len(params) == 0 {
+		fa = ""
+	}
+	if strings.Contains(fa, "allocsize") && !strings.HasPrefix(params[0], "i32") {
+		fa = ""
+	}
+	if f.Flip("attr-group") {
+		id := f.AttrID()
+		f.TailLine("attributes #%d = { nounwind \"g\"=\"h\" }", id)
+		fa += fmt.Sprintf(" #%d", id)
+	}
+	sec := f.Opt("section", ` section "fsec"`)
+	part := ""
+	if def {
+		part = f.Opt("partition", ` partition "fp"`)
+	}
+	name := f.Uniq("fn")
+	comdat := ""
+	if def {
+		switch f.N("comdat", 3) {
+		case 1:
+			f.TopLine("$%s = comdat any", name)
+			comdat = " comdat"
+		case 2:
+			cn := f.Uniq("c")
+			f.TopLine("$%s = comdat largest", cn)
+			comdat = " comdat($" + cn + ")"
+		}
+	}
+	al := f.Opt("align", " align 32")
+	gc := f.Opt("gc", ` gc "statepoint-example"`)
+	extra := ""
+	if def {
+		// independent options, in grammar order, so that combinations (and, for C05, a
+		// fault in an earlier field followed by a good later field) are enumerated.
+		switch f.N("prefix", 3) {
+		case 1:
+			extra += " prefix i32 123"
+		case 2:
+			g := f.Uniq("pfx")
+			f.TopLine("@%s = global i32 7", g)
+			extra += " prefix i32* @" + g
+		}
+		switch f.N("prologue", 3) {
+		case 1:
+			extra += " prologue i8 144"
+		case 2:
+			g := f.Uniq("plg")
+			f.TopLine("@%s = global i8 9", g)
+			extra += " prologue i8* @" + g
+		}
+		if f.Flip("personality") {
+			f.Need(declPers)
+			extra += " personality i8* bitcast (i32 (...)* @__gxx_personality_v0 to i8*)"
+		}
+	}
+	md := ""
+	if f.Flip("metadata") {
+		id := f.MDID()
+		f.TailLine("!%d = !{i32 5}", id)
+		md = fmt.Sprintf(" !foo !%d", id)
+	}
+	hdr := fmt.Sprintf("%s%s%s%s%s%s%s @%s(%s)%s%s%s%s%s%s%s%s%s", link, pre, vis, dll, cc, ra, rt, name, strings.Join(params, ", "), ua, as, fa, sec, part, comdat, al, gc, extra)
+	if def {
+		f.TopLine("define %s%s {\n  ret %s undef\n}", hdr, md, rt)
+	} else {
+		f.TopLine("declare%s %s", md, hdr)
+	}
+
 }
